@@ -220,6 +220,26 @@ def run(ctx):
             (endian is None or any(endian in a for a in cs[0].fn.get('args', [])))
         t = res(pb).ok_ret()
         ok = ok and t[0] == 'call' and t[1].endswith(bo)
+        if not ok and not cs:
+            # second spelling, without the byteorder crate: one read_exact into a [u8; N] on self.input, then T::from_le_bytes of that
+            # buffer (N = size of T by typing), for byte() element 0 of a [u8; 1]
+            ty_ = bo[len('read_'):]
+            rx = [c for c in q.calls(pb) if q.callee_name(c) == 'std::io::Read::read_exact']
+            ok2 = len(rx) == 1 and is_param_path(q.arg_terms(rx[0])[0], 1, ['input'])
+            if ok2:
+                buf = q.arg_terms(rx[0])[1]
+                if ty_ == 'u8':
+                    ok2 = t[0] == 'index' and t[1] == buf and q.const_val(t[2]) == 0 and any(l_['ty'] == '[u8; 1]' for l_ in pb.locals)
+                else:
+                    want_fn = 'core::num::<impl %s>::from_le_bytes' % ty_
+                    fns = [o_['fn'].get('orig') for c_ in q.calls(pb) for o_ in c_.args if o_.get('k') == 'const' and isinstance(o_.get('fn'), dict)] + \
+                          [(c_.fn or {}).get('orig') for c_ in q.calls(pb)]
+                    conv = [f_ for f_ in fns if f_ and f_.endswith('_bytes')]
+                    ok2 = conv == [want_fn] and t[0] == 'call' and t[1].endswith('from_le_bytes') and len(t[2]) == 1 and t[2][0] == buf
+            ok = ok2
+            ctx.inst('L0', 'reader.' + k, ok, '%s() = %s of one read_exact on self.input; must be %s::from_le_bytes of exactly that buffer' % (k, show(t)[:80], ty_),
+                     pb.span, key=pb.name + '|L0')
+            continue
         ctx.inst('L0', 'reader.' + k, ok, '%s() = %s%s on self.input, returned unchanged; must be %s %s' % (
             k, [c.callee.split('::')[-1] for c in cs], [a for c in cs for a in c.fn.get('args', []) if 'Endian' in a], bo, endian or ''),
             pb.span, key=pb.name + '|L0')
